@@ -4,6 +4,7 @@ import os, sys, subprocess
 ROOT = os.path.dirname(os.path.dirname(os.path.abspath(__file__)))
 sys.argv = [os.path.join(ROOT, "check")]
 src = open(os.path.join(ROOT, "check")).read().replace('if __name__ == "__main__":\n    main()', "")
+__file__ = os.path.join(ROOT, "check")
 exec(compile(src, "check", "exec"))
 info = {}
 with Lock("build.lock"):
